@@ -158,10 +158,19 @@ func runUnfold(c *Case, tr *Trace) {
 		return
 	}
 	ev := structform.EnsureExtVisitor(un)
+	if sr, _ := c.Sub["sharedref"].(bool); sr {
+		sharedRef = make([]byte, 64)
+		defer func() { sharedRef = nil }()
+	}
 	for i := range c.Stream {
 		if err := replayEvent(ev, &c.Stream[i]); err != nil {
 			res["stage"], res["err"], res["errat"] = "event", err.Error(), i+1
 			break
+		}
+	}
+	if sharedRef != nil {
+		for i := range sharedRef {
+			sharedRef[i] = 0xAA
 		}
 	}
 	res["r"] = describe(q.Elem())
@@ -248,6 +257,9 @@ func runKeyCache(c *Case, tr *Trace) {
 			pos += len(d)
 			to := newTarget()
 			keep = append(keep, to)
+			if re, _ := c.Sub["reenable"].(bool); re && enable && len(keep) > 1 {
+				un.EnableKeyCache(capN) // configuring the cache again (same capacity) between documents
+			}
 			if err := un.SetTarget(to); err != nil {
 				return res, lru, err.Error()
 			}
@@ -499,6 +511,13 @@ func runAlias(c *Case, tr *Trace) {
 		}
 		return nil
 	}
+	if pre, _ := c.Sub["prestr"].(bool); pre {
+		// the parser has been used through ParseString before (immutable input): what it learnt there
+		// must not carry over to input that arrives in reusable buffers
+		if un.SetTarget(newTarget()) == nil {
+			p.ParseString(string(follow))
+		}
+	}
 	t1 := newTarget()
 	if err := feed(doc, c.Cuts, t1); err != nil {
 		res["err"] = err.Error()
@@ -692,6 +711,9 @@ func runConc(c *Case, tr *Trace) {
 		if err := api.parse(in, rec); err != nil {
 			return string(sk.all), "parse: " + err.Error()
 		}
+		if !bytes.Equal(in, sk.all) {
+			return string(sk.all), "the parser wrote into its input buffer"
+		}
 		eb, _ := json.Marshal(rec.Events)
 		return string(sk.all) + "|" + string(eb), ""
 	}
@@ -702,8 +724,62 @@ func runConc(c *Case, tr *Trace) {
 			wantCodec[ckey{si, fi}] = [2]string{o, e}
 		}
 	}
+	// a parser that writes into its input shows in the sequential reference already
+	inputWritten := 0
+	for _, w := range wantCodec {
+		if w[1] == "the parser wrote into its input buffer" {
+			inputWritten++
+		}
+	}
+	// configuration isolation (deterministic, before the stress rounds): an instance created WITH options compiles
+	// the shared types first; instances without options must still do what they did before
+	iso := 0
+	{
+		type isoS struct {
+			X concInner  `struct:"x"`
+			P *concInner `struct:"p"`
+			N int        `struct:"n"`
+		}
+		val := isoS{X: concInner{1, 2.5}, P: &concInner{3, 4}, N: 5}
+		plainFold := func() string {
+			rec := &Recorder{}
+			it, err := gotype.NewIterator(rec)
+			if err == nil {
+				err = it.Fold(val)
+			}
+			b, _ := json.Marshal(rec.Events)
+			return fmt.Sprint(err) + string(b)
+		}
+		doc := map[string]interface{}{"x": map[string]interface{}{"x": 1, "y": 2.5}, "p": map[string]interface{}{"x": 3, "y": 4.0}, "n": 5}
+		plainUnfold := func() string {
+			var out isoS
+			u, err := gotype.NewUnfolder(&out)
+			if err == nil {
+				err = gotype.Fold(doc, u)
+			}
+			d := describe(reflect.ValueOf(&out).Elem())
+			b, _ := json.Marshal(d)
+			return fmt.Sprint(err) + string(b)
+		}
+		f0, u0 := plainFold(), plainUnfold()
+		if it, err := gotype.NewIterator(&Recorder{}, gotype.Folders(func(in *concInner, v structform.ExtVisitor) error { return v.OnString("custom") })); err == nil {
+			it.Fold(val)
+		}
+		{
+			var out isoS
+			if u, err := gotype.NewUnfolder(&out, gotype.Unfolders(func(to *concInner, s string) error { to.X = len(s); return nil })); err == nil {
+				gotype.Fold(map[string]interface{}{"x": "abc", "p": "de", "n": 1}, u)
+			}
+		}
+		if plainFold() != f0 {
+			iso++
+		}
+		if plainUnfold() != u0 {
+			iso++
+		}
+	}
 	var mu sync.Mutex
-	mismatches, errs := 0, 0
+	mismatches, errs := inputWritten, 0
 	regs := map[uintptr]int{} // registry identity -> number of instances using it at the same time
 	dupl := 0
 	global := gotype.VerifGlobalFoldRegistry()
@@ -800,7 +876,7 @@ func runConc(c *Case, tr *Trace) {
 		}
 	}
 	tr.Extra = map[string]interface{}{"infra": "", "pipelines": n * rounds, "codec_streams": len(cstreams), "mismatches": mismatches, "errors": errs,
-		"registries": len(regs), "uses_global": usesGlobal, "reused_ids": dupl}
+		"registries": len(regs), "uses_global": usesGlobal, "reused_ids": dupl, "iso": iso}
 }
 
 func ptrVD(v VD) *VD { return &v }
@@ -858,7 +934,7 @@ func runGoReuse(c *Case, tr *Trace) {
 		res["evR"], res["evF"] = evOrEmpty(rec.Events[mark:]), evOrEmpty(recF.Events)
 		res["errR"], res["errF"] = errStr(errR), errStr(errF)
 	case "unfolder":
-		un, _ := gotype.NewUnfolder(nil)
+		un, _ := gotype.NewUnfolder(nil, userUnfolders)
 		idle := un.VerifDepths()
 		deps := [][]int{}
 		// sub.via: the value travels through an encoder and the format's parser (member names then arrive by
@@ -894,7 +970,7 @@ func runGoReuse(c *Case, tr *Trace) {
 		}
 		rR, errR := unfoldInto(un, probe)
 		deps = append(deps, un.VerifDepths())
-		fresh, _ := gotype.NewUnfolder(nil)
+		fresh, _ := gotype.NewUnfolder(nil, userUnfolders)
 		if haskc {
 			fresh.EnableKeyCache(int(kc))
 		}
